@@ -4,7 +4,7 @@
    body and every limit >= 1 it hands the channel exactly the content header and then the chunks
    the model says, in order.  Stdlib only, no axioms. *)
 From Coq Require Import String.
-From Amq Require Import Lib.Base Lib.RsVal Gen.Consts Model.Publish Gen.SrcSend.
+From Amq Require Import Lib.Base Lib.RsVal Gen.Consts Model.Publish Proofs.Publish Gen.SrcSend.
 Open Scope string_scope.
 Open Scope N_scope.
 
@@ -56,6 +56,36 @@ Proof.
     with (enc_self fm (log ++ [VC "header" [cid; VN (N.of_nat (length body)); props]]), VC "Ok" [VC "()" []]).
   cbn iota beta. rewrite (loop_source_is_model cid props Hfm); [|lia].
   unfold body_chunks. rewrite <- app_assoc. reflexivity.
+Qed.
+
+(* C02 AS A THEOREM ABOUT THE TRANSLATED CODE: with the limit Channel0Handle::new computes from a
+   negotiated frame_max (0 = no limit, else at least FRAME_MIN_SIZE), the translated send_content
+   hands over the header announcing the body's length and then body frames that are non-empty, fit
+   frame_max including the 8 bytes of frame overhead, are all full except possibly the last, and
+   concatenate to exactly the body - none at all for an empty body *)
+Theorem send_content_source_frames frame_max cid props body log :
+  frame_max = 0 \/ c_frame_min_size <= frame_max ->
+  exists chunks,
+    gen_ChannelHandle_send_content ext_st_model (S (length body)) (enc_self (payload_limit frame_max) log) (VBytes body) cid props
+    = (enc_self (payload_limit frame_max)
+         (log ++ VC "header" [cid; VN (N.of_nat (length body)); props] :: map body_item chunks),
+       VC "Ok" [VC "()" []]) /\
+    concat chunks = body /\
+    Forall (fun c => 0 < N.of_nat (length c) <= payload_limit frame_max) chunks /\
+    (c_frame_min_size <= frame_max ->
+     Forall (fun c => N.of_nat (length c) + c_frame_overhead <= frame_max) chunks) /\
+    (forall pre c, chunks = (pre ++ [c])%list ->
+     Forall (fun x => N.of_nat (length x) = payload_limit frame_max) pre) /\
+    (body = [] -> chunks = []).
+Proof.
+  intro Hfm. pose proof (payload_limit_pos Hfm) as Hpos.
+  exists (body_chunks (payload_limit frame_max) body).
+  split; [apply send_content_source_is_model; lia|].
+  split; [apply body_chunks_concat; exact Hpos|].
+  split; [apply body_chunks_sizes; exact Hpos|].
+  split; [intro H; apply body_frame_size; exact H|].
+  split; [intros pre c H; apply (body_chunks_full Hpos H)|].
+  intros ->. apply body_chunks_empty.
 Qed.
 
 (* non-vacuity: 10 bytes with limit 4: header, then 4 + 4 + 2 *)
